@@ -55,6 +55,21 @@ func main() {
 				{Powers: []int64{1, 1, 1, 1}, Byz: 1, Heights: 2, Rules: forkAttempt},
 				{Powers: []int64{1, 1, 1, 1}, Byz: 1, Heights: 2, Rules: forkAttempt, NoProposerFix: true},
 			}
+			// ... and in a height that goes through six undecided rounds (two nodes do not see the proposal of a
+			// round, the prevotes split 2:2): a validator restarted late in such a height must come back
+			var many []consnet.Rule
+			plain := consnet.Scenario{Powers: []int64{1, 1, 1, 1}, Byz: -1, Heights: 1}
+			for r := int64(0); r < 6; r++ {
+				p := consnet.ProposerAt(&plain, 1, r)
+				held := 0
+				for j := 3; j >= 0 && held < 2; j-- {
+					if j != p {
+						many = append(many, consnet.Rule{Kind: "hold", Node: j, Msg: "proposal", Round: r})
+						held++
+					}
+				}
+			}
+			crashBases = append(crashBases, consnet.Scenario{Powers: []int64{1, 1, 1, 1}, Byz: -1, Heights: 1, Rules: many})
 			crashes, crashInfo := consnet.CrashScenarios(crashBases, run.WorkDir()+"/crashref", run.Pick(3, 1), []int{0, 1})
 			scs = append(scs, crashes...)
 			// delay-bounded scheduling: every single (thorough: also pairs of) non-default choice at
